@@ -106,7 +106,14 @@ def gen_case(seed, i):
     for d in dirs:
         if rng.random() < 0.15 and ign_ok:
             rules = rng.sample(["k", "sub/", "*.dat", "**/README", "*.bin", "a/", "m.txt"], rng.randint(1, 3))
-            w.add_file(d + "/" + rng.choice([".gitignore", ".fdignore"]), {"hex": ("\n".join(rules) + "\n").encode().hex()})
+            ign = d + "/" + rng.choice([".gitignore", ".fdignore"])
+            if rng.random() < 0.25:
+                # the ignore file is a symbolic link to a rules file kept elsewhere (dotfiles managed by stow & co.)
+                store = roots[0] + "/.rules%d" % len(dirs)
+                w.add_file(store, {"hex": ("\n".join(rules) + "\n").encode().hex()})
+                w.add_symlink(ign, "@ROOT@/" + store)
+            else:
+                w.add_file(ign, {"hex": ("\n".join(rules) + "\n").encode().hex()})
     opts = {}
     if rng.random() < 0.35:
         opts["depth"] = rng.choice([0, 1, 1, 2, 3, 4])
@@ -474,7 +481,8 @@ def _follow_links_ignore_route(case, violation):
         return False
     rules = []
     for e in case["world"]["entries"]:
-        if e["t"] == "f" and e["p"].rsplit("/", 1)[-1] in (".gitignore", ".fdignore") and "hex" in e.get("c", {}):
+        nm_ = e["p"].rsplit("/", 1)[-1]
+        if e["t"] == "f" and (nm_ in (".gitignore", ".fdignore") or nm_.startswith(".rules")) and "hex" in e.get("c", {}):
             for line in bytes.fromhex(e["c"]["hex"]).decode("latin-1").split("\n"):
                 line = line.strip()
                 if line and not line.startswith("#"):
